@@ -91,6 +91,7 @@ type Runner struct {
 	// (stale) resources and requirements, see known finding KF7
 	StaleRestarted bool
 	Cond           map[string]bool // every oracle clause that has fired in this history
+	RejectedLeftPending bool       // a rejected reconfiguration left undelivered changes behind
 }
 
 // BrokenStateSuffix names known-defective states the history has already been through; checks
@@ -102,6 +103,12 @@ func (r *Runner) BrokenStateSuffix() string {
 	}
 	if r.Cond["C03/shared-oversubscribed"] || r.Cond["C03/empty-cpuset"] {
 		sfx += ":after-pool-drained"
+	}
+	if r.Stats["reconf_rejected"] > 0 && (r.Cond["C13/rejected-not-atomic"] || r.RejectedLeftPending) {
+		sfx += ":after-nonatomic-rejected-reconf"
+	}
+	if r.Cond["C02/membership"] || r.Cond["C13/lost-allocation"] || r.Cond["C11/live-without-allocation"] {
+		sfx += ":after-container-left-unallocated"
 	}
 	return sfx
 }
@@ -124,6 +131,14 @@ func (r *Runner) Violate(prop, check, sig, format string, args ...interface{}) {
 	if r.StaleRestarted && (prop == "C01" || prop == "C03" || prop == "C04" || prop == "C05" || prop == "C12") {
 		sig += ":after-stale-cache-restart"
 	}
+	// Violations that can be mere consequences of a known-defective state the history has
+	// already been through carry that state in their signature (the defects themselves -
+	// C05/pending after a failed request, C03 drained pool, ... - are reported without it).
+	if derivedCheck[prop+"/"+check] {
+		if sfx := r.BrokenStateSuffix(); sfx != "" && !strings.Contains(sig, ":after-") && !strings.HasPrefix(sig, "stale-pinning") {
+			sig += sfx
+		}
+	}
 	v := Violation{Prop: prop, Check: check, Sig: sig, Msg: fmt.Sprintf(format, args...), Step: r.StepNo, Hist: r.Hist, Op: r.LastOp}
 	// one report per (prop, check) and history is enough: a broken state persists over
 	// later steps, the first firing names the request that caused it
@@ -134,6 +149,17 @@ func (r *Runner) Violate(prop, check, sig, format string, args ...interface{}) {
 		}
 	}
 	r.Viol = append(r.Viol, v)
+}
+
+// derivedCheck lists the oracle clauses whose firing can be a consequence of an earlier defect.
+var derivedCheck = map[string]bool{
+	"C01/excl-in-other": true, "C01/outside-available": true, "C01/reserved-to-nonreserved": true, "C01/reserved-mixed": true, "C01/excl-overlap": false,
+	"C02/cpuset": true, "C02/cpuset-hidden-ht": true,
+	"C03/exclusive-count": true, "C03/grant-amount": true, "C03/shares": true,
+	"C04/mems-vs-zone": true,
+	"C05/update-dead": true, "C05/view-mismatch": true,
+	"C12/cpus-told": true, "C12/mems-told": true,
+	"C09/balloons-state": true, "C09/free-cpus": true, "C09/pool-state": true, "C09/leak-grant": true, "C09/leak-memory": true, "C09/leak-member": true, "C09/dead-holds": true, "C09/holder-uncached": true,
 }
 
 func (r *Runner) Count(key string) { r.Stats[key]++ }
@@ -462,6 +488,9 @@ func (r *Runner) Do(s *Step) *Reply {
 				r.Count("reconf_accepted")
 			} else {
 				r.Count("reconf_rejected")
+				if len(rm.PendingIDs()) > 0 {
+					r.RejectedLeftPending = true
+				}
 			}
 			for _, push := range rep.Pushed {
 				if err != nil {
